@@ -1,13 +1,14 @@
 import Mimium.Model.Core
+import Mimium.Proofs.CoreRenameV
 /-!
 # C16 — meaning is invariant under renaming, layout and agreeing annotations
 
 In the reference semantics layout and annotations do not exist (the evaluator sees the AST only), so the property
 reduces to renaming.  Proved here: the environment discipline that makes renaming harmless — looking a renamed
 variable up in the renamed environment finds the same location, for every injective renaming; binding renamed
-parameters gives the renamed environment and the same store.  The invariance of the whole evaluator
-(`eval (rename σ e) = eval e`) is stated for the constructs below and is otherwise decided by the correspondence:
-the real compiler is run on each generated program and on 8 transformed renderings of it.
+parameters gives the renamed environment and the same store.  `C16_eval_rename` is the invariance of the whole evaluator under every injective renaming. That the real compiler
+behaves like the reference semantics here is decided by the correspondence: the real compiler is run on each generated
+program and on 8 transformed renderings of it.
 PARTIAL: the parser/type checker/mirgen handling of names is exercised, not modelled.
 -/
 namespace Mimium.Core
@@ -52,6 +53,19 @@ theorem C16_var_rename (σ : String → String) (hσ : ∀ a b, σ a = σ b → 
   | some l =>
     simp only
     cases hl : st[l]? <;> simp [Except.toOption]
+
+/-- **Renaming invariance of the whole evaluator** (all 18 constructs, closures, assignment, state): evaluating the
+`π`-renamed expression in the `π`-renamed program, environment, store and state gives the `π`-image of the original
+result — identical numbers and tuples, the same store locations and state cells; only the binder names inside closure
+values differ. Holds for every injective `π`, every program, every fuel. (Proved in `Proofs/CoreRenameV.lean`.) -/
+theorem C16_eval_rename (P : Prog) (rt : Rt) (π : String → String) (hπ : ∀ a b, π a = π b → a = b)
+    (fuel : Nat) (e : Expr) (env : Env) (σ : Store) (st : SNode) :
+    RR (renR π) (eval fuel (renP π P) rt (renEnv π env) (renE π e) (renVL π σ) (renS π st)) (eval fuel P rt env e σ st) :=
+  (equivariantV P rt π hπ fuel).1 e env σ st
+
+/-- a renamed number is the same number: the audible part of a result does not see the renaming -/
+theorem C16_numbers_unchanged (π : String → String) (b : UInt64) : renV π (.num b) = .num b := by
+  simp [renV]
 
 example : (renameEnv (fun s => "q_" ++ s) [("a", 0), ("b", 1)]).lookup "q_b" = some 1 := by decide
 
